@@ -49,14 +49,9 @@ def getPdFilter (j : Json) : Except String PdFilter := do
   | "none" => pure .none
   | "list" => do let xs ← Driver.get? (List Bool) rf "data"; pure (.list xs)
   | "array" => do let xs ← Driver.get? (List Bool) rf "data"; pure (.array xs)
-  | _ => pure .field
+  | _ => do let xs ← Driver.get? (List Bool) rf "data"; pure (.field xs)
 
 def rowsJson (rows : List (List Cell)) : Json := Json.arr (rows.map strs).toArray
-
-def getDialect (j : Json) : Except String Spec.Csv.Dialect := do
-  let skip ← Driver.get? Bool j "skip"
-  let cr ← Driver.get? Bool j "cr"
-  pure ⟨skip, cr⟩
 
 def handle : Driver.Handler := fun op j =>
   match op with
@@ -80,9 +75,12 @@ def handle : Driver.Handler := fun op j =>
     let rows ← Driver.get? (List (List String)) j "rows"
     pure <| Driver.okJson (Json.mkObj [("text", str (Spec.Csv.render (rows.map (·.map cell))))])
   | "c18_parse" => some do
-    let text ← Driver.get? String j "text"
-    let d ← getDialect j
-    pure <| Driver.okJson (Json.mkObj [("rows", rowsJson (Spec.Csv.parse d text.toList))])
+    let texts ← Driver.get? (List String) j "texts"
+    let one (t : String) : Json :=
+      let cs := t.toList
+      Json.mkObj [("std", rowsJson (Spec.Csv.parse ⟨false, true⟩ cs)), ("skip", rowsJson (Spec.Csv.parse ⟨true, true⟩ cs)),
+                  ("exetera", rowsJson (Spec.Csv.parse ⟨true, false⟩ cs)), ("plain", rowsJson (Spec.Csv.parse ⟨false, false⟩ cs))]
+    pure <| Driver.okJson (Json.mkObj [("rows", Json.arr (texts.map one).toArray)])
   | _ => none
 
 end Driver.C18
